@@ -720,5 +720,34 @@ func (p *Parser) collectDependencies(expr ast.Expr, typeInfo *types.Info, import
 		return true
 	})
 
+	// An identifier that reaches another package through a dot import carries no qualifier in the source.
+	// The generated file imports that package by name, so the identifier is qualified here.
+	qualified := astutil.Apply(expr, func(c *astutil.Cursor) bool {
+		ident, ok := c.Node().(*ast.Ident)
+		if !ok {
+			return true
+		}
+		if sel, isSel := c.Parent().(*ast.SelectorExpr); isSel && sel.Sel == ident {
+			return true
+		}
+
+		obj := typeInfo.Uses[ident]
+		if obj == nil || obj.Pkg() == nil || obj.Parent() != obj.Pkg().Scope() {
+			return true
+		}
+
+		imp, ok := imports[obj.Pkg().Path()]
+		if !ok {
+			return true
+		}
+
+		c.Replace(&ast.SelectorExpr{X: ast.NewIdent(imp.Name), Sel: ast.NewIdent(ident.Name)})
+		referencedImports[obj.Pkg().Path()] = imp
+		return false
+	}, nil)
+	if qualifiedExpr, ok := qualified.(ast.Expr); ok {
+		expr = qualifiedExpr
+	}
+
 	return expr, referencedImports
 }
